@@ -11,3 +11,12 @@ Proof. exact gen_scan_ulong_eq. Qed.
 Lemma tie_generated_fmt_ulong_len : forall u : N, (u < 18446744073709551616)%N ->
   retval (C_fmt_ulong.run 21 [] (-1) (Z.of_N u)) = Some (Z.of_nat (length (fmt_ulong u))) /\ (length (fmt_ulong u) <= 20)%nat.
 Proof. exact gen_fmt_ulong_len. Qed.
+(* report() of today's qmail-lspawn.c, translated to Gallina by tools/c2gallina.py (gen/CGen.v, module C_lreport), writes for every
+   wait status and every delivery-child output exactly Local/LspawnReport.v's lspawn_report - of which Properties_C18 proves
+   that it contains no NUL and starts with the verdict computed from the status alone *)
+From NQ Require Local.LspawnReport Tie.Gen_report.
+Lemma tie_generated_lspawn_report : forall (pre : list Z) (wstat : Z) (out : bytes), bytes_ok out -> 0 <= wstat < 2 ^ 31 ->
+  Z.of_nat (length out) < 2 ^ 31 ->
+  option_map (fun r => C_lreport.a_ss__out (snd r)) (C_lreport.run (S (length out)) pre wstat (zs out) 0 (Z.of_nat (length out)))
+  = Some (pre ++ zs (LspawnReport.lspawn_report (negb (Z.land wstat 127 =? 0)) (Z.to_N (Z.shiftr wstat 8)) out)).
+Proof. exact Gen_report.gen_lreport_eq. Qed.
